@@ -587,8 +587,26 @@ FIXED = [
 ]
 
 
+def fragment_chain(ctx, schema):
+    """a FLAT document: a chain of N fragments each spreading the next (syntactic nesting depth 2) must validate"""
+    from py_gql.lang import parse
+    for n in (200, 1100):
+        text = "{ ...C0 }\n" + "\n".join("fragment C%d on Query { ...C%d }" % (i, i + 1) for i in range(n)) + \
+               "\nfragment C%d on Query { s }" % n
+        st, _ = verdict_of(schema, parse(text))
+        ctx.count()
+        ctx.stat("fragment-chain:%d:%s" % (n, st.split(":")[0] if not st.startswith("raises") else st[:len("raises:RecursionError")]))
+        if st.startswith("raises:"):
+            ctx.fail("validate-raises:%s:fragment-chain-%d" % (st.split(":")[1], n),
+                     "validate_ast raises on a flat chain of %d fragments (each one only spreads the next; nesting depth 2): %s" % (n, st),
+                     {"sdl": FIXED_SDL, "document": text[:120] + "...", "fragments": n, "label": "fragment-chain", "small": None})
+        elif st != "accepted":
+            ctx.fail("fragment-chain-rejected:%d" % n, "a valid chain of fragments is rejected", {"sdl": FIXED_SDL, "fragments": n})
+
+
 def fixed_cases(ctx, lean_batch):
     schema, holder, dump = X.build(FIXED_SDL, 0)
+    fragment_chain(ctx, schema)
     for label, text, vs in FIXED:
         one_document(ctx, schema, holder, dump, FIXED_SDL, 0, label, text, vs, None, lean_batch, "fixed")
 
